@@ -2,13 +2,20 @@ import FitModel.Decode
 import FitModel.WF
 import FitModel.Gen.Profile
 import FitProofs.Refine
+import FitProofs.NoPanic
+import FitProofs.Chain
 /-!
   C01 — decoding entry points are total: no panic or hang on any byte input.
 
   Every Go panic site on the decode paths is an explicit `panic` outcome of the model
-  (`dpanic`/`panicOut`), every loop of the decoder is a structural recursion or consumes fuel
-  bounded by the header's data size; the correspondence run compares the real code's behaviour
-  (under `recover` and a per-case timeout) with the model's on every case.
+  (`dpanic`/`panicOut`): a nil `msgAdder`, reflection `SetUint`/`SetInt`/`Set` on a struct field of
+  the wrong kind, `Field(i)` out of range, slicing `tmp` beyond what was read, the zero `Value`, the
+  "pre-CRC" invariant check. Every loop of the decoder is a structural recursion or consumes fuel
+  bounded by the header's data size (Lean's termination checker accepts the model, and
+  `decode_never_panics` shows the fuel is never what ends the record loop). The theorems below show
+  that on a profile satisfying `ProfileWF` — which the regenerated profile does (`gen_wf`) — no
+  input, package state, option set or read schedule leads to a panic outcome. The correspondence run
+  compares the real code's behaviour (under `recover` and a per-case timeout) with the model's.
 -/
 namespace Fit.Props.C01
 open Fit
@@ -62,5 +69,66 @@ theorem gen_wf : ProfileWF Gen.profile = true := by decide +kernel
 /-- non-vacuity: a narrow definition (1-byte uint8 for the uint16 field record.heart... i.e.
     session.total_calories) is admitted -/
 example : validateFieldDef Gen.profile 18 ⟨11, 1, Base.uint8⟩ = true := by decide +kernel
+
+/-- **No entry point panics (specification run).** For every well-formed profile, mode
+    (Decode / DecodeHeader / DecodeHeaderAndFileID / CheckIntegrity), option set, package state
+    and input, with either way of ending, the outcome is a result or an error. -/
+theorem decodeSpec_never_panics (P : Profile) (hwf : ProfileWF P = true) (o : Opts) (m : Mode) (g : Globals)
+    (data : Bytes) (stop : Stop) : (decodeSpec P o m g data stop).1.panic = false := by
+  unfold decodeSpec
+  simp only
+  rw [(finalize_err o _).2.1]
+  exact prog_never_panics P hwf m g _
+
+/-- **No entry point panics (the buffered run, any reader).** Whatever the reader's chunking, and
+    whether it ends with EOF or with an error, delivered with or without final bytes. -/
+theorem decode_never_panics (P : Profile) (hwf : ProfileWF P = true) (o : Opts) (m : Mode) (g : Globals)
+    (r : Reader) : (decode P o m g r).1.panic = false := by
+  rw [decode_out_eq_spec]
+  exact decodeSpec_never_panics P hwf o m g r.data r.stop
+
+/-- the instance for the tree under check: the regenerated profile -/
+theorem decode_never_panics_gen (o : Opts) (m : Mode) (g : Globals) (r : Reader) :
+    (decode Gen.profile o m g r).1.panic = false :=
+  decode_never_panics Gen.profile gen_wf o m g r
+
+/-- `DecodeChained` never panics either: each step is a `Decode`, and a successful `Decode`
+    always carries a File to append. -/
+theorem chained_never_panics (P : Profile) (hwf : ProfileWF P = true) (o : Opts) (fuel i : Nat)
+    (acc : List FileSt) (g : Globals) (data : Bytes) (stop : Stop) :
+    (decodeChainedSpec P o fuel i acc g data stop).panic = false := by
+  induction fuel generalizing i acc g data with
+  | zero => rfl
+  | succ fuel ih =>
+    rw [decodeChainedSpec]
+    have hp := decodeSpec_never_panics P hwf o .full g data stop
+    simp only [hp, Bool.false_eq_true, ↓reduceIte]
+    cases he : (decodeSpec P o .full g data stop).1.err with
+    | some c =>
+      simp only
+      split <;> rfl
+    | none =>
+      simp only
+      have hs : (decodeSpec P o .full g data stop).1.success := ⟨he, hp⟩
+      have hf := success_has_file P hwf g _ (spec_success_of P o .full g data stop hs)
+      have hf' : (decodeSpec P o .full g data stop).1.st.file.isSome = true := by
+        unfold decodeSpec
+        simp only
+        unfold finalize
+        split
+        · exact hf
+        · simp only
+          cases hfile : (runSpec (decodeProg P .full g) { rest := data, stop := stop, taken := 0 }).1.st.file with
+          | none => rw [hfile] at hf; cases hf
+          | some f => rfl
+      cases hfile : (decodeSpec P o .full g data stop).1.st.file with
+      | none => rw [hfile] at hf'; cases hf'
+      | some f => exact ih _ _ _ _
+
+/-- and so for the real loop over any reader -/
+theorem chained_never_panics_buffered (P : Profile) (hwf : ProfileWF P = true) (o : Opts) (fuel i : Nat)
+    (acc : List FileSt) (g : Globals) (r : Reader) : (decodeChained P o fuel i acc g r).panic = false := by
+  rw [(chained_eq_spec P o fuel i acc g r).2.2.1]
+  exact chained_never_panics P hwf o fuel i acc g r.data r.stop
 
 end Fit.Props.C01
